@@ -33,5 +33,13 @@ for cfg in ("E", "D"):
                 adts.setdefault(crate, {})[a["path"]] = [[x["name"], x["ty"]] for x in a["variants"][0]["fields"]]
 res = {k: dict(sorted(v.items())) for k, v in sorted(out.items())}
 res["__adts__"] = adts
+statics = {}
+for cfg in ("E", "D"):
+    d, info = build.build(cfg)
+    f = Facts(d, info)
+    for crate, cd in f.crates.items():
+        for st in cd["statics"]:
+            statics.setdefault(crate, {})[st["path"]] = st["ty"]
+res["__statics__"] = statics
 json.dump(res, open(os.path.join(HERE, "rules", "known_fns.json"), "w"), indent=0)
 print({k: len(v) for k, v in out.items()})
